@@ -23,6 +23,9 @@ type Call struct {
 	Nest   []NestAt        `json:"nest"`
 	Panic  [][]any         `json:"panic,omitempty"`
 	Stall  [][]any         `json:"stall,omitempty"`
+	// Dead (a subset of Stall): the handler does not return within
+	// HandlerDeadline either; it is released by a later "release" event
+	Dead [][]any `json:"dead,omitempty"`
 	Probe  bool            `json:"probe,omitempty"`
 	// Follows: the same mutation as the preceding check call, issued for real;
 	// Predicted is that check's answer (filled in by the driver)
